@@ -938,7 +938,7 @@ class FlipReinforceLemma(Contract):
         yield "averages_to_exact_derivative", z3.Implies(z3.And(p > 0, p < 1), lhs == p * dfT + (1 - p) * dfF + (fT - fF) * dp)
 
 
-@contract("genjax.adev:NormalREPARAM.prim_jvp_estimate", ["C11"])
+@contract("genjax.adev:NormalREPARAM.prim_jvp_estimate", ["C11", "C17"])
 class NormalReparamC(_Prim):
     """x = mu + sigma*eps with eps ~ N(0,1) drawn with PARAMETER-FREE arguments; continuation on Dual(x, mu' + sigma' eps)"""
 
@@ -988,9 +988,12 @@ class NormalReparamC(_Prim):
         yield "returns_the_continuations_dual", isinstance(path.value, Dual)
 
 
-@contract("genjax.adev:MultivariateNormalDiagREPARAM.prim_jvp_estimate", ["C11"])
+@contract("genjax.adev:MultivariateNormalDiagREPARAM.prim_jvp_estimate", ["C11", "C17"])
 class MvnDiagReparamC(_Prim):
-    cases = ["vector"]
+    """x = loc + scale_diag * eps with one independent N(0,1) coordinate per element of the BROADCAST shape of
+    (loc, scale_diag) - also when loc carries leading batch axes that scale_diag does not"""
+
+    cases = ["vector", "batched_loc(B,n)_shared_scale(n)"]
 
     def call(self, case):
         reset()
@@ -998,6 +1001,10 @@ class MvnDiagReparamC(_Prim):
         n = fresh("n", z3.IntSort())
         engine().assume(n >= 1)
         self.mu, self.sg, self.dmu, self.dsg = (Tensor.fresh(x, (n,)) for x in ("loc", "scale", "dloc", "dscale"))
+        if case != "vector":
+            B = fresh("B", z3.IntSort())
+            engine().assume(B >= 1)
+            self.mu, self.dmu = Tensor.fresh("loc", (B, n)), Tensor.fresh("dloc", (B, n))
         return self.real(adev.MultivariateNormalDiagREPARAM().prim_jvp_estimate, (Dual(self.mu, self.dmu), Dual(self.sg, self.dsg)), (self.k.kpure, self.k.kdual))
 
     def ensures(self, case, path):
@@ -1010,6 +1017,15 @@ class MvnDiagReparamC(_Prim):
             return
         sc, d = NRM.sample_calls[0], k.dcalls[0][0]
         i = fresh("i", z3.IntSort())
+        if case != "vector":
+            b = fresh("b", z3.IntSort())
+            eps = dists.DrawRI2(NRM.id, sc["nonce"], b, i, z3.RealVal(0), z3.RealVal(1))
+            ok = isinstance(d.primal, Tensor) and len(d.primal.shape) == 2 and isinstance(d.tangent, Tensor) and len(d.tangent.shape) == 2
+            yield "result_has_the_broadcast_shape", ok
+            if ok:
+                yield "primal_is_loc_plus_scale_eps_with_independent_noise_per_element_of_the_broadcast_shape", d.primal.fn((b, i)) == self.mu.fn((b, i)) + self.sg.fn((i,)) * eps
+                yield "tangent_is_pathwise_derivative", d.tangent.fn((b, i)) == self.dmu.fn((b, i)) + self.dsg.fn((i,)) * eps
+            return
         eps = dists.DrawRI(NRM.id, sc["nonce"], i, z3.RealVal(0), z3.RealVal(1))
         yield "primal_is_loc_plus_scale_eps", d.primal.fn((i,)) == self.mu.fn((i,)) + self.sg.fn((i,)) * eps
         yield "tangent_is_pathwise_derivative", d.tangent.fn((i,)) == self.dmu.fn((i,)) + self.dsg.fn((i,)) * eps
